@@ -33,3 +33,18 @@ def validate_trace(ctx, module: str, cfg: str, records: list[dict], name: str = 
     else:
         ctx.cov["traces_validated_against_impl"] += consumed
     return accepted, consumed, res
+
+
+def binding_control(ctx, module: str, cfg: str, records: list[dict], index: int, corrupt, name: str, what: str, **kw):
+    """Negative control of the binding: the same trace with ONE record corrupted must be rejected AT that record.
+    `corrupt(record) -> record`.  Counts nothing towards the coverage; raises MachineryError if the corrupted trace is accepted."""
+    import copy
+    cor = [copy.deepcopy(r) for r in records[:index + 1]]
+    cor[index] = corrupt(cor[index])
+    before = ctx.cov["traces_validated_against_impl"]
+    ok, consumed, _ = validate_trace(ctx, module, cfg, cor, name=name, **kw)
+    ctx.cov["traces_validated_against_impl"] = before
+    ctx.cov.setdefault("controls", {})[f"corrupted_{what}_rejected"] = (not ok and consumed == index)
+    if ok or consumed != index:
+        raise MachineryError(f"{module}: a trace whose record #{index} was corrupted ({what}) was "
+                             f"{'accepted' if ok else f'rejected at #{consumed}'}: the trace specification does not bind")
